@@ -23,6 +23,8 @@ pub fn vassume(c : bool)
 }
 #[path = "../../shared/prestate.rs"]
 pub mod prestate;
+#[path = "../../shared/sortcase.rs"]
+pub mod sortcase;
 
 #[path = "../gen/blob.rs"] pub mod blob;
 #[path = "../gen/bundle.rs"] pub mod bundle;
